@@ -708,6 +708,14 @@ func (s *vSink) hook(m *Memberlist, ev string, kv ...any) {
 			n.push(gid, &vOpen{kind: "timer"})
 		}
 
+	case "probe.pick":
+		st := kv[0].(*nodeState)
+		l := vBlankLine("ProbePick")
+		l.N, l.T = n.name, s.now()
+		l.Node = st.Name
+		l.Info = vStateName(st.State)
+		s.emit(l)
+
 	case "merge.entry":
 		if ml, ok := n.mergeLine[gid]; ok {
 			s.emit(ml)
